@@ -9,7 +9,13 @@
        walk of findSubset over the sorted criteria, Active(), and the fallback entry.
    TLC checks for every configuration in the bounds and every criteria map that both tries answer
    exactly Candidates.  `Defects` switches the implementation-shaped operators (never the declarative
-   ones) to the named ways this design goes wrong; TLC must reject each of them.
+   ones) to the named ways this design goes wrong; TLC must reject each of them:
+     PrefixIsSubset          an entry created on the way to a leaf answers for criteria that are a strict prefix of a selector
+     MissingKeyEmpty         a host lacking a key is treated as carrying the empty value
+     FallbackIgnoresDefault  the default-subset fallback uses every host
+     EmptySelectorIndexed    the pre-index builder indexes into the keys of a selector without keys (panic; fixed in the code)
+     NilFallsBack            a nil answer of the selected subset's balancer (all members unhealthy) falls through to the
+                             fallback entry - what the pinned code does (open finding of C15)
 
    Hosts are the indexes 1..Len(hosts); 0 stands for "no host". *)
 EXTENDS Integers, Sequences, FiniteSets, TLC, Json, SequencesExt
